@@ -92,11 +92,95 @@ impl Prop for Forwarding {
     }
 }
 
+// ------------------------------------------------------------ presence and signature (L1)
+
+pub struct SurfacePresence;
+
+impl Prop for SurfacePresence {
+    type Case = crate::checks::l2common::Case;
+    fn name(&self) -> String {
+        "C07/surface".into()
+    }
+    fn rule(&self) -> String {
+        "hierarchies from the rich generator at width 4 or 8 with function names drawn from a small shared pool (clashes between bases, between a base function and a derived type's own — also private — virtual function, between vftable and impl functions), any calling convention and parameter types. Oracle (syn view): every function the reference method surface predicts for a derived type — public base functions under their own name or <field>_<name> — exists exactly once in the emitted impl with the declared parameter and return types. Non-trivial: a derived type with >=2 re-exposed functions or a rename".into()
+    }
+    fn gen(&self, t: &mut Tape) -> Self::Case {
+        let w = if t.chance(1, 2) { 8 } else { 4 };
+        let mut cfg = crate::genprog::GenCfg::rich(w);
+        cfg.base_num = 2;
+        cfg.vft_num = 2;
+        cfg.max_items = 3 + t.below(10);
+        cfg.max_fields = 3;
+        cfg.docs = false;
+        cfg.backends = false;
+        cfg.enums = false;
+        cfg.ext_vals = false;
+        let (prog, _, _) = gen_prog(t, cfg);
+        crate::checks::l2common::Case { prog, w }
+    }
+    fn judge(&self, c: &Self::Case) -> Outcome {
+        use crate::pipeline::{build_prog, Res};
+        let built = match build_prog(&c.prog, c.w as usize) {
+            Res::Ok(b) => b,
+            Res::Err(e) => return Outcome::discard(&format!("rejected: {}", e.chars().filter(|c| !c.is_ascii_digit()).take(40).collect::<String>())),
+            Res::Panic(p) => return Outcome::fail("panic", p),
+        };
+        let mut model = Model::new(&c.prog, c.w);
+        let mut fw = 0;
+        let mut renames = 0;
+        for (mi, m) in c.prog.mods.iter().enumerate() {
+            let v = match crate::rsview::view(&built.files[&m.out_path()]) {
+                Ok(v) => v,
+                Err(e) => return Outcome::fail("unparsable", e),
+            };
+            for (ii, it) in m.items.iter().enumerate() {
+                let Item::Type(td) = it else { continue };
+                let s = model.surface(mi, ii);
+                for meth in s.assoc.iter().filter(|x| !matches!(x.origin, Origin::Own) || x.scope_mod != mi || true) {
+                    let inherited = match &meth.origin {
+                        Origin::Forward { orig, .. } => {
+                            fw += 1;
+                            if *orig != meth.name {
+                                renames += 1;
+                            }
+                            true
+                        }
+                        _ => false,
+                    };
+                    if meth.name.starts_with('_') {
+                        continue;
+                    }
+                    let found: Vec<_> = v.methods.get(&td.name).map(|ms| ms.iter().filter(|x| x.name == meth.name).collect()).unwrap_or_default();
+                    if found.len() != 1 {
+                        return Outcome::fail(
+                            if inherited { "reexposed-missing" } else { "method-missing" },
+                            format!("{}::{} ({}): {} definitions in the emitted impl; methods present: {:?}", td.name, meth.name, if inherited { "re-exposed from a base" } else { "own" }, found.len(), v.methods.get(&td.name).map(|ms| ms.iter().map(|x| x.name.clone()).collect::<Vec<_>>())),
+                        );
+                    }
+                    let mv = found[0];
+                    let named: Vec<&Ty> = meth.func.args.iter().filter_map(|a| if let Arg::Named(_, t) = a { Some(t) } else { None }).collect();
+                    let want: Vec<String> = named.iter().filter_map(|t| model.rust_ty(meth.scope_mod, t)).collect();
+                    let got: Vec<String> = mv.args.iter().map(|a| a.1.clone()).collect();
+                    let want_ret = meth.func.ret.as_ref().and_then(|t| model.rust_ty(meth.scope_mod, t));
+                    if want != got || want_ret != mv.ret || mv.receiver.is_some() != meth.func.has_self() {
+                        return Outcome::fail("reexposed-signature", format!("{}::{}: emitted ({:?}) -> {:?}, expected ({:?}) -> {:?}", td.name, meth.name, got, mv.ret, want, want_ret));
+                    }
+                }
+            }
+        }
+        Outcome::pass(fw >= 2 || renames >= 1).class(&format!("forwarded:{}", bucket(fw))).class(&format!("renames:{}", bucket(renames)))
+    }
+    fn show(&self, c: &Self::Case) -> Value {
+        crate::checks::l2common::show_case(c)
+    }
+}
+
 pub fn props() -> Vec<Box<dyn DynProp>> {
-    vec![Box::new(Forwarding)]
+    vec![Box::new(SurfacePresence), Box::new(Forwarding)]
 }
 
 pub fn run(ctx: &mut Ctx) {
     let q = ctx.quick();
-    ctx.run(&Forwarding, &Params::new(if q { 300 } else { 10_000 }, 200, 3000).shrink(60));
+    ctx.run(&SurfacePresence, &Params::new(if q { 8000 } else { 300_000 }, 100, 2500).shrink(300));
+    ctx.run(&Forwarding, &Params::new(if q { 1500 } else { 50_000 }, 200, 3000).shrink(60));
 }
